@@ -108,7 +108,7 @@ def main():
                      "kind_free_text": "solver-based checking of the real code: CrossHair (symbolic execution of the repository's Python functions with z3) and direct z3 encodings regenerated from the live source"}],
         "checks": checks,
         "not_applicable": na,
-        "notes": "Exit codes of ./vq-check: 0 holds within bounds, 1 replay-confirmed violation, 3 inconclusive (never reported as success). KNOWN-FINDING lines: C06 ('9 in the morning' ranking), C20 (beam pruning of a long composition). 82 seeded changes under /verif/seeded (81 caught; the thread race R2C12B is outside the technique). tools/mutant.py tries a change in a scratch worktree.",
+        "notes": "Exit codes of ./vq-check: 0 holds within bounds, 1 replay-confirmed violation, 3 inconclusive (never reported as success). KNOWN-FINDING lines: C06 ('9 in the morning' ranking), C20 (beam pruning of a long composition). 84 seeded changes under /verif/seeded (83 caught; the thread race R2C12B is outside the technique). tools/mutant.py tries a change in a scratch worktree.",
     }
     with open(os.path.join(VERIF, "MANIFEST.json"), "w") as fd:
         json.dump(man, fd, indent=1)
